@@ -34,13 +34,6 @@ Judge(e, r) ==
     ELSE IF e.k = "rstrip_end" /\ CompareText(r.cur, e.obs) # "ok" /\ CompareText(RstripEndChars(t, e.n), e.obs) = "ok" THEN "ok"
     ELSE CompareText(r.cur, e.obs)
 
-\* calls that return a NEW object and leave the old one alive; "swap" continues with the old one:
-\* an edit of one must never show on the other (no shared span list / text)
-Deriving == {"new", "assemble", "join", "split", "divide", "index", "slice", "copy"}
-Derives(e, r) == \/ e.k \in (Deriving \ {"split", "divide"})
-                 \/ (e.k = "append_text" /\ e.via = "add")
-                 \/ (e.k \in {"split", "divide"} /\ e.pick >= 1 /\ e.pick <= Len(r.pieces))
-
 Step == /\ l <= Len(Tr) /\ verdict = "ok"
         /\ LET e == Tr[l]
                r == IF e.k = "swap" THEN Res(sib) ELSE Apply(t, e)
